@@ -309,6 +309,11 @@ def helper_tests(text):
         out.append("            while (it.func(it.iter, &o) == 0) { if (k >= n || o != data[k]) ok = 0; k++; if (k > 10) break; }")
         out.append("            if (k != n || it.func(it.iter, &o) == 0) ok = 0;")
         out.append('            printf("HELPER name=BUF_ITER ty=i32 n=%d ok=%d\\n", n, ok);')
+        out.append("            /* the buffer may be handed over untyped (malloc'd region, byte pointer): the element type is the macro's second argument */")
+        out.append("            { const void *raw = data; const uint8_t *bytes = (const uint8_t *)data; int okv = 1, kv = 0;")
+        out.append("              BUF_ITER_SPEC(i32, int32_t, itv, raw, n); while (itv.func(itv.iter, &o) == 0) { if (kv >= n || o != data[kv]) okv = 0; kv++; if (kv > 10) break; } if (kv != n) okv = 0;")
+        out.append("              BUF_ITER_SPEC(i32, int32_t, itb, bytes, n); kv = 0; while (itb.func(itb.iter, &o) == 0) { if (kv >= n || o != data[kv]) okv = 0; kv++; if (kv > 10) break; } if (kv != n) okv = 0;")
+        out.append('              printf("HELPER name=BUF_ITER_UNTYPED ty=i32 n=%d ok=%d\\n", n, okv); }')
         out.append("            /* the source is not fused: after the end was reported (twice), the C side publishes more of the buffer; exactly those items must follow */")
         out.append("            if (n <= 4) { it_base.size = (size_t)n + 2; int ok2 = 1, k2 = 0;")
         out.append("                while (it.func(it.iter, &o) == 0) { if (k2 >= 2 || o != data[n + k2]) ok2 = 0; k2++; if (k2 > 10) break; }")
